@@ -9,7 +9,7 @@ import inspect
 
 from . import common, flat
 from .common import SLOT
-from .flat import TRIGGER, canon_exc, make_exc, ename
+from .flat import TRIGGER, MAY, canon_exc, make_exc, ename
 
 QMODES = (False, True, 'model')
 
@@ -296,9 +296,10 @@ class Run7(flat.FlatRun):
     # -- API calls ---------------------------------------------------------------------------
     async def ado_cmd(self, c):
         kind, a, b = c
-        if kind != TRIGGER:
-            raise common.MachineryError('C07 histories contain triggers only: %r' % (c,))
+        if kind not in (TRIGGER, MAY):
+            raise common.MachineryError('C07 histories contain triggers and may_ polls only: %r' % (c,))
         mo = self.model_objs[a]
+        name = ename(b) if kind == TRIGGER else 'may_' + ename(b)
         tag = self.next_tag
         self.next_tag += 1
         self.items.append(('api', kind, tag, a, b))
@@ -306,10 +307,12 @@ class Run7(flat.FlatRun):
         try:
             # `model.trigger(name)` answers unknown names synchronously (False / AttributeError);
             # a careful caller awaits only what is awaitable
-            if hasattr(mo, ename(b)) and (tag % 2 == 0):
-                r = getattr(mo, ename(b))(tag, m=a)
-            else:
+            if hasattr(mo, name) and (tag % 2 == 0):
+                r = getattr(mo, name)(tag, m=a)
+            elif kind == TRIGGER:
                 r = mo.trigger(ename(b), tag, m=a)
+            else:
+                r = mo.may_trigger(ename(b), tag, m=a)
             if inspect.isawaitable(r):
                 r = await r
         except BaseException as e:
